@@ -61,6 +61,19 @@ def _compare(res, sp, M, I, S, state, V, t, shape_tag):
     props = M.get_propensities()
     full = _full_complement(sp, state)
     n_eval = 0
+    # the general mass-action class constructed directly ("a bare propensity object"): a model only uses it from order 3
+    # on (orders 0..2 are dispatched to specialised classes), the class itself accepts every order 0..4
+    from bioscrape.types import MassActionPropensity
+    s2i = M.get_species2index()
+    bare = {}
+    for j, rx in enumerate(sp["reactions"]):
+        if rx["type"] == "massaction":
+            k = rx["pd"]["k"]
+            kval = float(sp["params"][k]) if isinstance(k, str) else float(k)
+            b = MassActionPropensity()
+            with specmod.quiet():
+                b.initialize({"species": "*".join(rx["r"]), "k": "k"}, dict(s2i), {"k": 0})
+            bare[j] = (b, np.array([kval], dtype=float))
     for mode in ref.MODES:
         exp = [ref.rate(sp, rx, state, t, mode, V) for rx in sp["reactions"]]
         got_iface = I.py_verif_compute_propensities(x.copy(), t, mode, V)
@@ -82,7 +95,19 @@ def _compare(res, sp, M, I, S, state, V, t, shape_tag):
             else:
                 tag = rx["type"]
             object_failed = False
-            for path, val in (("propensity_object", g), ("interface", got_iface[j]), ("safe_interface", got_safe[j])):
+            paths = [("propensity_object", g), ("interface", got_iface[j]), ("safe_interface", got_safe[j])]
+            if j in bare:
+                b, bp = bare[j]
+                if mode == "det":
+                    gb = b.py_get_propensity(x, bp, t)
+                elif mode == "vol":
+                    gb = b.py_get_volume_propensity(x, bp, V, t)
+                elif mode == "stoch":
+                    gb = b.py_verif_stochastic_propensity(x, bp, t)
+                else:
+                    gb = b.py_verif_stochastic_volume_propensity(x, bp, V, t)
+                paths.append(("general_massaction_object", gb))
+            for path, val in paths:
                 if path == "safe_interface" and not full[j]:
                     continue
                 n_eval += 1
